@@ -1,9 +1,11 @@
 package main
 
 import (
+	"fmt"
 	"go/token"
 	"go/types"
 	"sort"
+	"strings"
 
 	"golang.org/x/tools/go/ssa"
 )
@@ -35,16 +37,16 @@ type fnInfo struct {
 	fn       *ssa.Function
 	loops    []*loopInfo
 	domEdges map[*ssa.BasicBlock][]edge // block -> branch edges that dominate it
+	// feasible-path reachability (see pathState), cached per cut
+	reachNoEdge  map[edge]map[*ssa.BasicBlock]bool
+	reachNoBlock map[*ssa.BasicBlock]map[*ssa.BasicBlock]bool
+	reachAll     map[*ssa.BasicBlock]bool
+	phiLive      map[*ssa.Phi]map[*ssa.BasicBlock]bool // control-relevant phis -> blocks at which they are still needed
+	guardCache   map[*ssa.BasicBlock][]guard
 }
 
 func (c *Ctx) info(fn *ssa.Function) *fnInfo {
-	if fi, ok := c.fnCache[fn]; ok {
-		return fi
-	}
-	fi := &fnInfo{fn: fn, domEdges: map[*ssa.BasicBlock][]edge{}}
-	fi.findLoops()
-	c.fnCache[fn] = fi
-	return fi
+	return globalInfo(fn)
 }
 
 // reach computes the blocks reachable from start without using the edges in cut and without
@@ -76,11 +78,32 @@ func edgeDominates(e edge, target *ssa.BasicBlock) bool {
 	if len(e.from.Succs) == 2 && e.from.Succs[0] == e.from.Succs[1] {
 		return false
 	}
-	r := reach(fn.Blocks[0], map[edge]bool{e: true}, nil)
 	if target == fn.Blocks[0] {
 		return false
 	}
-	return !r[target]
+	r := reach(fn.Blocks[0], map[edge]bool{e: true}, nil)
+	if !r[target] {
+		return true
+	}
+	// path-insensitively reachable without the edge: retry on feasible paths only (correlated error tests of inlined helpers)
+	fi := globalInfo(fn)
+	if !fi.feasibleAll()[target] {
+		return false
+	}
+	return !fi.feasibleWithoutEdge(e)[target]
+}
+
+var infoCache = map[*ssa.Function]*fnInfo{}
+
+// globalInfo is c.info for the free functions of this file.
+func globalInfo(fn *ssa.Function) *fnInfo {
+	if fi, ok := infoCache[fn]; ok {
+		return fi
+	}
+	fi := &fnInfo{fn: fn, domEdges: map[*ssa.BasicBlock][]edge{}}
+	fi.findLoops()
+	infoCache[fn] = fi
+	return fi
 }
 
 // normCond strips negations: returns the underlying value and the polarity under which the
@@ -97,6 +120,18 @@ func normCond(v ssa.Value, pol bool) (ssa.Value, bool) {
 
 // necessaryGuards returns every If edge that dominates block b, with its condition and polarity.
 func (fi *fnInfo) necessaryGuards(b *ssa.BasicBlock) []guard {
+	if gs, ok := fi.guardCache[b]; ok {
+		return gs
+	}
+	gs := fi.necessaryGuardsUncached(b)
+	if fi.guardCache == nil {
+		fi.guardCache = map[*ssa.BasicBlock][]guard{}
+	}
+	fi.guardCache[b] = gs
+	return gs
+}
+
+func (fi *fnInfo) necessaryGuardsUncached(b *ssa.BasicBlock) []guard {
 	var out []guard
 	for _, blk := range fi.fn.Blocks {
 		iff, ok := lastInstr(blk).(*ssa.If)
@@ -235,10 +270,12 @@ func succIndex(b, succ *ssa.BasicBlock) int {
 }
 
 func (fi *fnInfo) findLoops() {
+	dominatesFastOnly = true
+	defer func() { dominatesFastOnly = false }()
 	byHeader := map[*ssa.BasicBlock]*loopInfo{}
 	for _, b := range fi.fn.Blocks {
 		for _, s := range b.Succs {
-			if s.Dominates(b) { // back edge b -> s
+			if dominates(s, b) { // back edge b -> s
 				li := byHeader[s]
 				if li == nil {
 					li = &loopInfo{header: s, body: map[*ssa.BasicBlock]bool{s: true}}
@@ -373,7 +410,7 @@ func (r *region) succs(b *ssa.BasicBlock) []*ssa.BasicBlock {
 			out[i] = nil
 		case r.loop != nil && s == r.loop.header:
 			out[i] = nil
-		case r.loop == nil && s.Dominates(b) && false:
+		case r.loop == nil && dominates(s, b) && false:
 			out[i] = nil
 		default:
 			out[i] = s
@@ -636,30 +673,62 @@ func containsVal(vs []ssa.Value, v ssa.Value) bool {
 }
 
 // edgeEndsInError: every way on from edge e ends the function with a non-nil error: every Return reachable from the
-// edge's target yields a non-nil error (a phi that can be nil counts as nil), at least one exit is reachable, and
-// nothing reachable returns success. Panic / os.Exit blocks are accepted as failing exits.
+// edge's target (on feasible paths: phi operands and repeated conditions are tracked along the path, which matters once
+// helpers that return (value, error) have been inlined) yields a non-nil error, and at least one exit is reachable.
+// Panic / os.Exit blocks are accepted as failing exits.
 func (c *Ctx) edgeEndsInError(e edge) (bool, string) {
 	start := e.to()
 	exits := 0
-	for b := range reach(start, nil, nil) {
+	bad := ""
+	seen := map[string]bool{}
+	var dfs func(b *ssa.BasicBlock, ps *pathState)
+	dfs = func(b *ssa.BasicBlock, ps *pathState) {
+		if bad != "" {
+			return
+		}
+		k := fmt.Sprintf("%d|%s", b.Index, ps.key())
+		if seen[k] {
+			return
+		}
+		seen[k] = true
+		for _, in := range b.Instrs {
+			if site, ok := in.(ssa.CallInstruction); ok && calleeName(site.Common()) == "os.Exit" {
+				exits++
+				return
+			}
+		}
 		switch last := lastInstr(b).(type) {
 		case *ssa.Return:
 			exits++
 			ev := returnedErr(last)
 			if ev == nil {
-				return false, "function has no error result at " + c.ipos(last)
+				bad = "function has no error result at " + c.ipos(last)
+				return
 			}
-			if mayBeNil(ev, map[ssa.Value]bool{}) {
-				return false, "a nil error can be returned on the failure path at " + c.ipos(last)
+			if mayBeNil(ps.resolve(ev), map[ssa.Value]bool{}) {
+				bad = "a nil error can be returned on the failure path at " + c.ipos(last)
 			}
+			return
 		case *ssa.Panic:
 			exits++
+			return
 		}
-		for _, in := range b.Instrs {
-			if site, ok := in.(ssa.CallInstruction); ok && calleeName(site.Common()) == "os.Exit" {
-				exits++
+		for i, s := range b.Succs {
+			_, _, next, feasible := ps.branch(b, i)
+			if !feasible {
+				continue
 			}
+			dfs(s, next.enter(s, b))
 		}
+	}
+	ps := newPathState()
+	// the edge itself fixes the outcome of its own condition
+	if _, _, next, feasible := ps.branch(e.from, e.idx); feasible {
+		ps = next
+	}
+	dfs(start, ps.enter(start, e.from))
+	if bad != "" {
+		return false, bad
 	}
 	if exits == 0 {
 		return false, "the failure path never leaves the function (" + c.bpos(start) + ")"
@@ -710,4 +779,438 @@ func stepAssume(assume map[string]bool, b, prev *ssa.BasicBlock, i int) (map[str
 	}
 	as[k] = kpol
 	return as, true
+}
+
+// ---- dominators (own computation: the canonicaliser replaces function bodies, so ssa's dominator fields are stale) ----
+
+var domCache = map[*ssa.Function]map[*ssa.BasicBlock]map[*ssa.BasicBlock]bool{}
+
+func domSets(fn *ssa.Function) map[*ssa.BasicBlock]map[*ssa.BasicBlock]bool {
+	if d, ok := domCache[fn]; ok && len(d) == len(fn.Blocks) {
+		return d
+	}
+	blocks := fn.Blocks
+	n := len(blocks)
+	idx := map[*ssa.BasicBlock]int{}
+	for i, b := range blocks {
+		idx[b] = i
+	}
+	words := (n + 63) / 64
+	full := make([]uint64, words)
+	for i := 0; i < n; i++ {
+		full[i/64] |= 1 << uint(i%64)
+	}
+	dom := make([][]uint64, n)
+	for i := range dom {
+		dom[i] = append([]uint64(nil), full...)
+	}
+	if n > 0 {
+		dom[0] = make([]uint64, words)
+		dom[0][0] = 1
+	}
+	order := rpo(blocks)
+	changed := true
+	for changed {
+		changed = false
+		for _, b := range order {
+			i := idx[b]
+			if i == 0 {
+				continue
+			}
+			cur := append([]uint64(nil), full...)
+			any := false
+			for _, p := range b.Preds {
+				pi, ok := idx[p]
+				if !ok {
+					continue
+				}
+				any = true
+				for w := range cur {
+					cur[w] &= dom[pi][w]
+				}
+			}
+			if !any {
+				cur = make([]uint64, words)
+			}
+			cur[i/64] |= 1 << uint(i%64)
+			for w := range cur {
+				if cur[w] != dom[i][w] {
+					dom[i] = cur
+					changed = true
+					break
+				}
+			}
+		}
+	}
+	out := map[*ssa.BasicBlock]map[*ssa.BasicBlock]bool{}
+	for i, b := range blocks {
+		m := map[*ssa.BasicBlock]bool{}
+		for j, a := range blocks {
+			if dom[i][j/64]&(1<<uint(j%64)) != 0 {
+				m[a] = true
+			}
+		}
+		out[b] = m
+	}
+	domCache[fn] = out
+	return out
+}
+
+// dominates: every path from the entry to b passes through a (a == b counts).
+func dominates(a, b *ssa.BasicBlock) bool {
+	if a == nil || b == nil || a.Parent() != b.Parent() {
+		return false
+	}
+	if domSets(a.Parent())[b][a] {
+		return true
+	}
+	if a == b {
+		return true
+	}
+	if dominatesFastOnly {
+		return false
+	}
+	fi := globalInfo(a.Parent())
+	if !fi.feasibleAll()[b] {
+		return false
+	}
+	return !fi.feasibleAvoiding(a)[b]
+}
+
+// dominatesFastOnly is set while loops are being discovered (back edges are a purely structural notion).
+var dominatesFastOnly bool
+
+// ---- path state: light path sensitivity for the path searches ------------------------------------------------------------
+
+// pathState carries what is known along one path of a search: the operand that each boolean / error / pointer phi took when
+// its block was entered, and the outcome of conditions whose repeated evaluation must agree (same boolean parameter, the
+// same ==/!= comparison over identical operands).
+type pathState struct {
+	phi    map[*ssa.Phi]ssa.Value
+	assume map[string]bool
+	fi     *fnInfo // when set, only control-relevant phis are tracked and bindings are dropped once they cannot matter
+}
+
+func newPathState() *pathState {
+	return &pathState{phi: map[*ssa.Phi]ssa.Value{}, assume: map[string]bool{}}
+}
+
+func (p *pathState) key() string {
+	var ks []string
+	for k, v := range p.phi {
+		ks = append(ks, k.Name()+"="+valKey(v))
+	}
+	for k, v := range p.assume {
+		ks = append(ks, fmt.Sprintf("%s=%v", k, v))
+	}
+	sort.Strings(ks)
+	return strings.Join(ks, ";")
+}
+
+func valKey(v ssa.Value) string {
+	if c, ok := v.(*ssa.Const); ok {
+		return c.String()
+	}
+	return v.Name()
+}
+
+func trackedPhi(p *ssa.Phi) bool {
+	switch t := p.Type().Underlying().(type) {
+	case *types.Basic:
+		return t.Info()&types.IsBoolean != 0
+	case *types.Interface, *types.Pointer:
+		return true
+	}
+	return false
+}
+
+// resolve follows the phi bindings of the path.
+func (p *pathState) resolve(v ssa.Value) ssa.Value {
+	for i := 0; i < 16; i++ {
+		phi, ok := v.(*ssa.Phi)
+		if !ok {
+			return v
+		}
+		n, ok := p.phi[phi]
+		if !ok {
+			return v
+		}
+		v = n
+	}
+	return v
+}
+
+// enter returns the state after moving along prev -> b.
+func (p *pathState) enter(b, prev *ssa.BasicBlock) *pathState {
+	if prev == nil {
+		return p
+	}
+	j := predIndex(b, prev)
+	if j < 0 {
+		return p
+	}
+	var out *pathState
+	clone := func() {
+		if out == nil {
+			out = &pathState{phi: make(map[*ssa.Phi]ssa.Value, len(p.phi)+2), assume: p.assume, fi: p.fi}
+			for k, v := range p.phi {
+				out.phi[k] = v
+			}
+		}
+	}
+	var live map[*ssa.Phi]map[*ssa.BasicBlock]bool
+	if p.fi != nil {
+		live = p.fi.controlPhis()
+		for k := range p.phi {
+			if !live[k][b] {
+				clone()
+				delete(out.phi, k)
+			}
+		}
+	}
+	for _, in := range b.Instrs {
+		phi, ok := in.(*ssa.Phi)
+		if !ok {
+			break
+		}
+		if !trackedPhi(phi) || j >= len(phi.Edges) {
+			continue
+		}
+		if live != nil && live[phi] == nil {
+			continue
+		}
+		clone()
+		out.phi[phi] = p.resolve(phi.Edges[j])
+	}
+	if out == nil {
+		return p
+	}
+	return out
+}
+
+// definitelyNonNil: the value is a freshly built error / interface / pointer.
+func definitelyNonNil(v ssa.Value) bool {
+	switch x := v.(type) {
+	case *ssa.MakeInterface, *ssa.Alloc, *ssa.MakeClosure, *ssa.MakeMap, *ssa.MakeSlice, *ssa.FieldAddr, *ssa.IndexAddr:
+		return true
+	case *ssa.Call:
+		switch calleeName(x.Common()) {
+		case "fmt.Errorf", "errors.New", "errors.Join":
+			return true
+		}
+	}
+	return false
+}
+
+// branch evaluates taking successor i of block b: it returns the condition with phis resolved along the path and negations
+// stripped, the polarity under which the successor is taken, the extended state, and whether the edge is feasible.
+func (p *pathState) branch(b *ssa.BasicBlock, i int) (ssa.Value, bool, *pathState, bool) {
+	iff, ok := lastInstr(b).(*ssa.If)
+	if !ok {
+		return nil, false, p, true
+	}
+	cond, pol := normCond(iff.Cond, i == 0)
+	for k := 0; k < 8; k++ {
+		r := p.resolve(cond)
+		if r == cond {
+			break
+		}
+		cond, pol = normCond(r, pol)
+	}
+	if bv, isC := constBool(cond); isC {
+		return cond, pol, p, bv == pol
+	}
+	if x, nonNilWhenTrue, isNilTest := errNilTest(cond); isNilTest {
+		rx := p.resolve(x)
+		if isNilConst(rx) {
+			// x is nil: the condition "x != nil" is false
+			return cond, pol, p, nonNilWhenTrue != pol
+		}
+		if definitelyNonNil(rx) {
+			return cond, pol, p, nonNilWhenTrue == pol
+		}
+		// remember what this branch says about the value: the same value is often tested again after an inlined return
+		k := "nil:" + valKey(rx)
+		isNilHere := nonNilWhenTrue != pol
+		if v, ok := p.assume[k]; ok {
+			return cond, pol, p, v == isNilHere
+		}
+		as := make(map[string]bool, len(p.assume)+1)
+		for kk, vv := range p.assume {
+			as[kk] = vv
+		}
+		as[k] = isNilHere
+		return cond, pol, &pathState{phi: p.phi, assume: as, fi: p.fi}, true
+	}
+	k, kpol := condKey(cond, pol)
+	if k == "" {
+		return cond, pol, p, true
+	}
+	if v, ok := p.assume[k]; ok {
+		return cond, pol, p, v == kpol
+	}
+	as := make(map[string]bool, len(p.assume)+1)
+	for kk, vv := range p.assume {
+		as[kk] = vv
+	}
+	as[k] = kpol
+	return cond, pol, &pathState{phi: p.phi, assume: as, fi: p.fi}, true
+}
+
+// ---- feasible-path reachability ----------------------------------------------------------------------------------------------
+
+// controlPhis computes, for the phis that can decide a branch (directly, negated, compared with nil, or through another
+// phi), the blocks at which their binding can still matter (from which a branch using them is reachable).
+func (fi *fnInfo) controlPhis() map[*ssa.Phi]map[*ssa.BasicBlock]bool {
+	if fi.phiLive != nil {
+		return fi.phiLive
+	}
+	uses := map[*ssa.Phi]map[*ssa.BasicBlock]bool{}
+	var collect func(v ssa.Value, at *ssa.BasicBlock, depth int)
+	collect = func(v ssa.Value, at *ssa.BasicBlock, depth int) {
+		if depth > 6 || v == nil {
+			return
+		}
+		switch x := v.(type) {
+		case *ssa.Phi:
+			if uses[x] == nil {
+				uses[x] = map[*ssa.BasicBlock]bool{}
+			}
+			if uses[x][at] {
+				return
+			}
+			uses[x][at] = true
+			for _, e := range x.Edges {
+				collect(e, x.Block(), depth+1)
+			}
+		case *ssa.UnOp:
+			if x.Op == token.NOT {
+				collect(x.X, at, depth+1)
+			}
+		case *ssa.BinOp:
+			if x.Op == token.EQL || x.Op == token.NEQ {
+				collect(x.X, at, depth+1)
+				collect(x.Y, at, depth+1)
+			}
+		}
+	}
+	for _, b := range fi.fn.Blocks {
+		if iff, ok := lastInstr(b).(*ssa.If); ok {
+			collect(iff.Cond, b, 0)
+		}
+		// returned errors are resolved through phis as well
+		if ret, ok := lastInstr(b).(*ssa.Return); ok {
+			for _, rv := range ret.Results {
+				if phi, ok := rv.(*ssa.Phi); ok && isErrorType(phi.Type()) {
+					collect(phi, b, 0)
+				}
+			}
+			// functions with defers return through a result cell: the value stored into it counts
+			if phi, ok := returnedErr(ret).(*ssa.Phi); ok {
+				collect(phi, b, 0)
+			}
+		}
+	}
+	live := map[*ssa.Phi]map[*ssa.BasicBlock]bool{}
+	for phi, at := range uses {
+		m := map[*ssa.BasicBlock]bool{}
+		var work []*ssa.BasicBlock
+		for b := range at {
+			work = append(work, b)
+		}
+		for len(work) > 0 {
+			b := work[len(work)-1]
+			work = work[:len(work)-1]
+			if m[b] {
+				continue
+			}
+			m[b] = true
+			if b == phi.Block() {
+				continue // the binding is (re)made here
+			}
+			work = append(work, b.Preds...)
+		}
+		live[phi] = m
+	}
+	fi.phiLive = live
+	return live
+}
+
+func newPathStateFor(fn *ssa.Function) *pathState {
+	p := newPathState()
+	p.fi = globalInfo(fn)
+	return p
+}
+
+// feasibleReach: blocks reachable from the entry on feasible paths that do not use edge cut (if any) nor enter block avoid (if any).
+func (fi *fnInfo) feasibleReach(cut *edge, avoid *ssa.BasicBlock) map[*ssa.BasicBlock]bool {
+	out := map[*ssa.BasicBlock]bool{}
+	if len(fi.fn.Blocks) == 0 {
+		return out
+	}
+	seen := map[string]bool{}
+	type item struct {
+		b  *ssa.BasicBlock
+		ps *pathState
+	}
+	start := fi.fn.Blocks[0]
+	if start == avoid {
+		return out
+	}
+	work := []item{{start, newPathStateFor(fi.fn)}}
+	for len(work) > 0 {
+		it := work[len(work)-1]
+		work = work[:len(work)-1]
+		k := fmt.Sprintf("%d|%s", it.b.Index, it.ps.key())
+		if seen[k] {
+			continue
+		}
+		seen[k] = true
+		out[it.b] = true
+		for i, s := range it.b.Succs {
+			if cut != nil && cut.from == it.b && cut.idx == i {
+				continue
+			}
+			if s == avoid {
+				continue
+			}
+			_, _, next, ok := it.ps.branch(it.b, i)
+			if !ok {
+				continue
+			}
+			work = append(work, item{s, next.enter(s, it.b)})
+		}
+	}
+	return out
+}
+
+func (fi *fnInfo) feasibleAll() map[*ssa.BasicBlock]bool {
+	if fi.reachAll == nil {
+		fi.reachAll = fi.feasibleReach(nil, nil)
+	}
+	return fi.reachAll
+}
+
+func (fi *fnInfo) feasibleWithoutEdge(e edge) map[*ssa.BasicBlock]bool {
+	if fi.reachNoEdge == nil {
+		fi.reachNoEdge = map[edge]map[*ssa.BasicBlock]bool{}
+	}
+	if r, ok := fi.reachNoEdge[e]; ok {
+		return r
+	}
+	r := fi.feasibleReach(&e, nil)
+	fi.reachNoEdge[e] = r
+	return r
+}
+
+func (fi *fnInfo) feasibleAvoiding(a *ssa.BasicBlock) map[*ssa.BasicBlock]bool {
+	if fi.reachNoBlock == nil {
+		fi.reachNoBlock = map[*ssa.BasicBlock]map[*ssa.BasicBlock]bool{}
+	}
+	if r, ok := fi.reachNoBlock[a]; ok {
+		return r
+	}
+	r := fi.feasibleReach(nil, a)
+	fi.reachNoBlock[a] = r
+	return r
 }
